@@ -367,7 +367,8 @@ def composites(rng, n_random):
     for x, y in itertools.product(UNFIXABLE_DONORS, FIXABLE_DONORS):
         pairs.append((x, y))
         pairs.append((y, x))
-    donor_pairs = set(pairs[n_before:n_before + 8])
+    donor_pairs = set(pairs[n_before + 6:n_before + 10])
+    PIPED_LABELS.clear()
     pool = RULE_AROMATISED + PARTLY_SATURATED + COMPOSITE_AROMATIC + RULE_REPAIRED
     for _ in range(n_random):
         pairs.append((rng.choice(pool), rng.choice(pool)))
